@@ -15,9 +15,9 @@ LEVEL_TEXT = ('Lean 4 theorems about an executable list model of Spectrum whose 
               'trapezoid/Simpson terms) are regenerated from radiometry.py (Gen/SpectrumOps.lean): the invariant (strictly increasing wavelengths, '
               'one value per wavelength) is preserved by crop/trim/pad/append/resample and by every history, also when an operation is refused; '
               'crop keeps exactly the closed range and is covariant under a change of unit (crop_scale_covariant); trim keeps first-to-last '
-              'sample above tolerance; retained samples are unaltered; `integrate s a b` is linear in the values and additive at a sample '
-              '(integrate_linear, integrate_additive_at_sample) and exact for piecewise-linear data (trapz_exact_piecewise_linear, integrate_exact_piecewise_linear: equal to the sum over segments of the increments of a primitive of each segment\'s line; trapz_exact_linear_segment for one global line); both rules return one bin per centre (bin_length); trapezoid bins of a non-negative spectrum are non-negative (bin_trapz_nonneg, about `bin` itself), exact for a spectrum linear across every bin (bin_trapz_exact_linear); Simpson bins with symmetric ends are non-negative (bin_simps_nonneg_symmetric) '
-              'and, with power preservation, sum to integrate over the centres\' span; refusals leave the spectrum (append/resample/trim/pad) or an emptied grid (crop).')
+              'sample above tolerance; retained samples are unaltered; `integrate s a b` (the model of method="trapz"; the default "simps" is not modelled) is linear in the values and additive at a sample '
+              '(integrate_linear, integrate_additive_at_sample) and exact for piecewise-linear data (trapz_exact_piecewise_linear, integrate_exact_piecewise_linear: equal to the sum over segments of the increments of a primitive of each segment\'s line; trapz_exact_linear_segment for one global line); both rules return one bin per centre (bin_length); trapezoid bins of a non-negative spectrum are non-negative (bin_trapz_nonneg, about `bin` itself), exact for a spectrum whose samples lie on ONE line with all bin edges inside the sampled range (bin_trapz_exact_linear) and, per bin, whenever the two edges of the bin lie in one data segment — the spectrum is linear across that bin, whatever it does elsewhere — the bin is the exact integral of the line of that segment (bin_trapz_exact_per_bin); Simpson bins with symmetric ends are non-negative (bin_simps_nonneg_symmetric); with power preservation the TRAPEZOID bins sum to the trapezoid `integrate` over the centres\' span (bin_preserve_power_sum) and bins normalised by a supplied integral I sum to I for either rule (bin_preserve_power_sum_given); '
+              ' refusals leave the spectrum (append/resample/trim/pad) or an emptied grid (crop).')
 LEVEL_NOTE = ('partial: non-negativity of Simpson bins for ends="inside" / integer-dtype centres / under preserve_power, exactness of Simpson bins '
               'and every scipy.integrate.simpson clause are oracle-only. Open known finding KF-C15-bin-integer-centres. '
               'Trusted: scipy interp1d(kind=linear) = piecewise-linear interpolant with fill; np.linspace, np.delete, np.trapz as modelled.')
@@ -33,7 +33,8 @@ RULE = ('streams: histories, integrate, setvalue (sample/bin, assign `value`/`wa
 TRUSTED = ['scipy.interpolate.interp1d(kind="linear", bounds_error=False, fill_value=…) is the piecewise-linear interpolant with fill',
            'np.linspace(a,b,n)[i] = a + i(b-a)/(n-1); np.delete/np.where/np.append/np.hstack semantics; np.trapz',
            'scipy.integrate.simpson (used by integrate(method="simps") and by preserve_power with simps) is taken from the implementation']
-UNPROVEN = ['non-negativity of Simpson bins for ends="inside", integer-dtype centres, or with preserve_power (symmetric ends without it: bin_simps_nonneg_symmetric)',
+UNPROVEN = [            'integrate theorems (linearity, additivity at a sample, piecewise-linear exactness) are about method="trapz"; the DEFAULT method "simps" (scipy.integrate.simpson) is not modelled: oracle/implementation only, also inside preserve_power for Simpson bins',
+            'non-negativity of Simpson bins for ends="inside", integer-dtype centres, or with preserve_power (symmetric ends without it: bin_simps_nonneg_symmetric)',
             'Simpson binning with integer-dtype centres (open known finding KF-C15-bin-integer-centres: mid-points truncated)',
             'Simpson bins: exactness for linear spectra on uniform centres (oracle only)',
             'integrate(method="simps") (scipy.integrate.simpson is not modelled)',
@@ -48,6 +49,7 @@ OPK = ['crop', 'trim', 'pad', 'append', 'resample']
 UNITS = ['m', 'um', 'nm', 'angstrom']
 MPU = {'m': Fraction(1), 'um': Fraction(1, 10**6), 'nm': Fraction(1, 10**9), 'angstrom': Fraction(1, 10**10)}
 NOTES = {}     # id(case) -> tags discovered while running the implementation
+REFUSED = {}   # id(case) -> (refused steps, accepted steps) of a history
 
 def _spec(rng, n=None, tiny_ends=False):
     n = int(rng.integers(2, 11)) if n is None else n
@@ -112,7 +114,7 @@ def generate(rng, tier):
             w, v = _spec(rng)
             v2 = [dyadic(rng, 0, 16, 3) for _ in w]
             out.append({'kind': 'integrate', 'wave': w, 'value': v, 'value2': v2, 'ca': dyadic(rng, -4, 4, 2), 'cb': dyadic(rng, -4, 4, 2),
-                        'a': FR[int(rng.integers(0, len(FR)))], 'b': FR[int(rng.integers(0, len(FR)))], 'split': int(rng.integers(0, len(w))),
+                        **(lambda x, y, sw: {'a': max(x, y) if sw else min(x, y), 'b': min(x, y) if sw else max(x, y)})(FR[int(rng.integers(0, len(FR)))], FR[int(rng.integers(0, len(FR)))], rng.integers(0, 8) == 0), 'split': int(rng.integers(0, len(w))),
                         'lin': [dyadic(rng, -2, 2, 3), dyadic(rng, 0, 8, 3)]})
         else:
             w, v = _spec(rng, n=int(rng.integers(3, 11)))
@@ -183,7 +185,10 @@ def signature(c):
     return 'bin n=%d m=%d %s %s %s %s>%s%s %s' % (len(c['wave']), c['m'], c['simps'], c['ends'], c['pp'], c['unit'], c.get('req', c['unit']), (c.get('cen_dtype', 'i') + str(c.get('wscale', ''))) if c.get('cen_int') else '', c['wave'][:2])
 
 def nontrivial(c):
-    if c['kind'] == 'history': return len({o['k'] for o in c['ops']}) >= 2
+    # histories: at least one refused AND one accepted step (known once the implementation has run); bins/integrals: always
+    if c['kind'] == 'history':
+        r = REFUSED.get(id(c))
+        return (r[0] >= 1 and r[1] >= 1) if r else len({o['k'] for o in c['ops']}) >= 2
     return True
 
 def tags(c):
@@ -194,6 +199,7 @@ def tags(c):
               'bin:requested=' + ('default' if c.get('omit_unit') else 'own' if c.get('req', c['unit']) == c['unit'] else 'other')]
         if c.get('cen_int'): t.append('bin:integer-centres:' + c.get('cen_dtype', 'int64') + ('*top-of-range' if c.get('wscale') else ''))
     t += NOTES.pop(id(c), [])
+    if c['kind'] == 'history' and id(c) in REFUSED: t += ['history:refused-steps'] * REFUSED[id(c)][0] + ['history:accepted-steps'] * REFUSED[id(c)][1]
     return t
 
 # ------------------------------------------------------------------------------------------ implementation
@@ -290,6 +296,8 @@ def _impl(c):
                 if p['k'] == 'append' and p['copy'] and exc is None:
                     st['returned'] = _state(ret)
                 steps.append(st)
+            NOTES[id(c)] = sorted({'step:%s:%s' % (st['p']['k'], 'skipped' if st.get('skipped') else (st['exc'] or 'ok')) for st in steps})
+            REFUSED[id(c)] = (sum(1 for st in steps if st['exc']), sum(1 for st in steps if not st['exc'] and not st.get('skipped')))
             return {'steps': steps}
         if k == 'setvalue':
             w = np.array(c['wave']); lo, hi = float(w[0]), float(w[-1])
@@ -617,6 +625,12 @@ def oracle(c, io):
         return None
     if k == 'integrate':
         w, v = c['wave'], c['value']
+        # first: the definition — trapezoid over exactly the samples inside the closed range [a, b] (bounds beyond the data add nothing)
+        sel0 = [(x, y) for x, y in zip(w, v) if io['a'] <= x <= io['b']]
+        ref0 = sum((x1 - x0) * (y0 + y1) / 2 for (x0, y0), (x1, y1) in zip(sel0, sel0[1:]))
+        if not close(io['I'], ref0, 1e-12, 1e-12):
+            where = ('; start is below the first sample' if io['a'] < w[0] else '') + ('; end is above the last sample' if io['b'] > w[-1] else '')
+            return f"integrate({io['a']},{io['b']}) on data spanning [{w[0]}, {w[-1]}] = {io['I']!r}, the exact integral of the piecewise-linear data over the samples inside = {ref0!r}{where}"
         if not close(io['Icomb'], c['ca'] * io['I'] + c['cb'] * io['I2'], 1e-12, 1e-9): return f"integration not linear: ∫(a f + b g) = {io['Icomb']!r}, a∫f + b∫g = {c['ca'] * io['I'] + c['cb'] * io['I2']!r}"
         if not close(io['left'] + io['right'], io['full'], 1e-12, 1e-12): return f"not additive at the sample {w[c['split']]}: {io['left']!r} + {io['right']!r} != {io['full']!r}"
         a_, b_ = c['lin']
